@@ -48,6 +48,11 @@ pub trait Scenario: Sync {
     fn extra_coverage(&self, _stats: &Stats) -> BTreeMap<String, serde_json::Value> {
         BTreeMap::new()
     }
+    /// violations of other properties that, inside this scenario's plans, are violations of
+    /// this property (e.g. "no progress after the fault stops" for C16)
+    fn adopts(&self, _v: &Violation) -> bool {
+        false
+    }
     /// probes that must have fired at least once in a batch of this tier
     fn required_probes(&self, _tier: Tier) -> Vec<&'static str> {
         vec![]
@@ -101,6 +106,9 @@ fn finding_matches(f: &Finding, v: &Violation) -> bool {
 #[derive(Serialize, Deserialize)]
 pub struct ReplayFile {
     pub property: String,
+    /// the property whose check reports it (differs from `property` when a scenario adopts a class)
+    #[serde(default)]
+    pub reported_as: Option<String>,
     pub class: String,
     pub backend: String,
     pub op: String,
@@ -406,7 +414,7 @@ pub fn run_check(scn: &dyn Scenario, tier: Tier, seed: u64, workers: usize, writ
     let mut foreign: BTreeMap<String, u64> = BTreeMap::new();
     let replay_dir = verif_dir().join("replays");
     for (key, (run, v, count)) in &distinct {
-        if v.property != prop {
+        if v.property != prop && !scn.adopts(v) {
             *foreign.entry(format!("{}:{}:{}:{}", v.property, v.class, v.backend, v.op)).or_insert(0) += count;
             continue;
         }
@@ -424,6 +432,7 @@ pub fn run_check(scn: &dyn Scenario, tier: Tier, seed: u64, workers: usize, writ
         let out = execute(&min_plan);
         let file = ReplayFile {
             property: v.property.to_string(),
+            reported_as: Some(prop.to_string()),
             class: min_v.class.clone(),
             backend: min_v.backend.clone(),
             op: min_v.op.clone(),
@@ -455,7 +464,7 @@ pub fn run_check(scn: &dyn Scenario, tier: Tier, seed: u64, workers: usize, writ
             "violation: {} {} on {} {} (run {}, {} occurrences; minimised {} -> {} steps in {} executions; replay verified in fresh process: {})\n  {}",
             v.property, v.class, v.backend, v.op, run, count, plan.steps.len(), min_plan.steps.len(), execs, verified, min_v.msg
         );
-        println!("VIOLATION property={} replay={}", v.property, path.display());
+        println!("VIOLATION property={} replay={}", prop, path.display());
         reported += 1;
         exit = 1;
     }
@@ -575,7 +584,7 @@ pub fn replay(path: &Path, quiet: bool) -> i32 {
                 println!("reproduced: {} {} on {} {} at step {}: {}", v.property, v.class, v.backend, v.op, v.step, v.msg);
                 println!("log hash {} (recorded {}){}", hash, f.log_hash, if hash == f.log_hash { " identical" } else { " DIFFERENT" });
             }
-            println!("VIOLATION property={} replay={}", f.property, path.display());
+            println!("VIOLATION property={} replay={}", f.reported_as.as_deref().unwrap_or(&f.property), path.display());
             1
         }
         None => {
